@@ -496,6 +496,23 @@ theorem T_C17_rotation_composes (w1 w2 : Rat) (a o p : V3) (h1 : w1 * w1 + V3.do
 example : (2 : Rat) * 2 + V3.dot (⟨1, 2, 2⟩ : V3) ⟨1, 2, 2⟩ ≠ 0 ∧ (-1 : Rat) * (-1) + V3.dot (⟨1, 2, 2⟩ : V3) ⟨1, 2, 2⟩ ≠ 0 := by
   constructor <;> (c17_unfold; norm_num)
 
+/-! ### Round 6c: `CurveClamp` on a `CircleCurve` -/
+
+/-- for every rationally parametrised angle the position is on the declared circle: in the plane of the rim point normal
+    to the axis (same height along the normal), at the rim's distance from the origin; angle 0 is the rim point, and two
+    parameter steps add up as quaternions (`T_C17_rotation_composes`) -/
+theorem T_C17_curve_circle_on (o rim n : V3) (w mu : Rat) (hN : w * w + V3.dot (V3.smul mu n) (V3.smul mu n) ≠ 0) :
+    V3.dot (curveCircle o rim n w mu - o) n = V3.dot (rim - o) n ∧
+      V3.norm2 (curveCircle o rim n w mu - o) = V3.norm2 (rim - o) ∧
+      curveCircle o rim n w 0 = rim := by
+  have h := T_C17_radial_on o n w mu rim hN
+  refine ⟨h.1, h.2, ?_⟩
+  have := T_C17_initial_radial o n w rim
+  simpa [curveCircle, radialClamp] using this
+
+example : (3 : Rat) * 3 + V3.dot (V3.smul (1 / 2) (⟨1, 2, 2⟩ : V3)) (V3.smul (1 / 2) ⟨1, 2, 2⟩) ≠ 0 := by
+  c17_unfold; norm_num
+
 /-! ### Round 6c: the chord-length parameters of a `LinearInterpolatedCurve` -/
 
 /-- `InterpolatorBase.params` (equalised), computed by the model from the segment-length witnesses: for positive
